@@ -4,7 +4,7 @@
    with library-generated names for the inner simplices) and every applicable request; the
    unbounded statement is tested by the oracle (evidence: tested_only). *)
 From Coq Require Import String ZArith Bool Arith List.
-From SV Require Import Names NamesFacts Rep Complex Homology Filtration Gen World Small Sweeps RepInv Shapes AddEffect CopyFaithful.
+From SV Require Import Names NamesFacts Rep Complex Homology Filtration Gen World Small Sweeps RepInv Shapes AddEffect CopyFaithful DelEffect.
 
 (* building by basis gives exactly the non-empty subsets of the given simplices, a well-formed
    complex whose views agree *)
@@ -62,3 +62,24 @@ Theorem C02_bulk_add_faithful :
   (forall s, containsSimplex r' s = containsSimplex r s || memn s (map fst src)).
 Proof. exact bulk_add_faithful. Qed.
 Print Assumptions C02_bulk_add_faithful.
+
+(* removing one simplex (forceDeleteSimplex, the step deleteSimplex is made of): it goes, nothing
+   new appears, every other simplex stays with its order, and faces / cofaces of the others lose
+   exactly the removed simplex *)
+Theorem C02_remove_one_exact_effect :
+  forall r s k i, sinv r -> assoc s (r_simp r) = Some (k, i) ->
+  let r' := fst (forceDeleteSimplex r s) in
+  containsSimplex r' s = false /\
+  (forall t, containsSimplex r' t = true -> containsSimplex r t = true /\ t <> s) /\
+  (forall t kt it, t <> s -> assoc t (r_simp r) = Some (kt, it) ->
+     orderOf r' t = Ok kt /\
+     (forall u, In u (faces r' t) <-> In u (faces r t) /\ u <> s) /\
+     (forall u, In u (cofaces r' t) <-> In u (cofaces r t) /\ u <> s)).
+Proof.
+  intros r s k i Hinv As r'. split; [exact (d_gone r s k i Hinv As)|]. split; [exact (d_sub r s k i Hinv As)|].
+  intros t kt it Hne At. destruct (d_pos r s k i Hinv As t kt it Hne At) as (_ & At' & _).
+  split; [unfold orderOf; fold r' in At'; now rewrite At'|]. split.
+  - exact (proj1 (d_faces r s k i Hinv As t kt it Hne At)).
+  - apply (d_cofaces r s k i Hinv As t Hne). unfold containsSimplex. now rewrite At.
+Qed.
+Print Assumptions C02_remove_one_exact_effect.
